@@ -67,6 +67,25 @@ Theorem C03_onebyte_view : forall a b items id, Forall wf_item1 items -> 1 <= id
 Proof. exact onebyte_view_agrees. Qed.
 Print Assumptions C03_onebyte_view.
 
+(* D35, repaired in /repo: the one-byte view's Get used to walk on behind the reserved id 15, which
+   GetIDs (and RFC 8285 4.2) end the block at - it returned values for ids that GetIDs does not list and
+   could slice past the end of the block.  Whatever follows the reserved id ([rest]: any bytes, [nib]: any
+   length nibble), both walks report exactly the elements in front of it, as Header.Unmarshal does. *)
+Theorem C03_onebyte_view_reserved : forall a b items nib rest id, Forall wf_item1 items -> 1 <= id <= 14 -> 0 <= nib < 16 ->
+  let buf := 190 :: 222 :: a :: b :: enc_items false items ++ (240 + nib) :: rest in
+  onebyte_unmarshal buf = Ok buf /\
+  onebyte_get_ids buf = Ok (map eid (elems items)) /\
+  onebyte_get buf id = Ok (lookup (elems items) id).
+Proof. exact onebyte_view_reserved. Qed.
+Print Assumptions C03_onebyte_view_reserved.
+
+(* BEDE 0002 | 10 AA | F0 | 00 2F BB 00 00: Get(2) used to read a 16-byte element at "2F" and panic *)
+Example C03_view_reserved_repaired :
+  onebyte_get [190; 222; 0; 2; 16; 170; 240; 0; 47; 187; 0; 0] 2 = Ok None /\
+  onebyte_get [190; 222; 0; 2; 16; 170; 240; 0; 47; 187; 0; 0] 1 = Ok (Some [170]) /\
+  onebyte_get_ids [190; 222; 0; 2; 16; 170; 240; 0; 47; 187; 0; 0] = Ok [1].
+Proof. vm_compute. repeat split. Qed.
+
 (* the two-byte form with any application bits: 0x100 followed by appbits, which a receiver ignores *)
 Theorem C03_twobyte_view : forall appbits a b items id, 0 <= appbits < 16 -> Forall wf_item2 items -> 1 <= id <= 255 ->
   let buf := 16 :: appbits :: a :: b :: enc_items true items in
